@@ -1,4 +1,6 @@
 import TwistedModel.Dns.Wire
+import TwistedModel.Dns.Proto
+import TwistedProps.C33.Tcp
 /-!
 C33 — decoding arbitrary bytes as a DNS message is total and terminates.
 
@@ -22,10 +24,33 @@ payload without `.data` → another exception (`Err.other`).
   unreachable because every `struct.unpack`/`ord` is applied to the result of a `readPrecisely` of
   exactly the right length.  `edns_decode_total`: the same for `_EDNSMessage.fromStr`.
 
-Level: a theorem about the model; that the model's outcome classes are Python's is what the tie
-(`harness/corr/C33.py`, mutated encodings of every record type, pointer cycles, bogus RDLENGTHs,
-random bytes; real `Message.fromStr`, `DNSDatagramProtocol.datagramReceived`,
-`DNSProtocol.dataReceived`) checks on every run.
+* The entry points (model `TwistedModel/Dns/Proto.lean`; lemmas on the framing alone in
+  `TwistedProps/C33/Tcp.lean`).
+  - TCP, `DNSProtocol.dataReceived`: `tcp_dataReceived_total` / `tcp_feed_total` — from every state and
+    for every segment(s) the `while self.buffer:` loop terminates (well-founded: a pass that goes round
+    again has consumed a length prefix or a frame) and the only exceptions that leave it are the
+    decoder's `EOFError`/`ValueError` (the `struct.unpack("!H")` failure is unreachable after the
+    repaired `len(self.buffer) >= 2` guard).  `tcp_segmentation_invariance` /
+    `tcp_segmentation_independent` — for every stream and every segmentation the messages handed over
+    (controller or pending query), the exception and the attributes left behind are those obtained by
+    cutting the stream at the 2-byte length prefixes (`frames`, `rest`) and decoding frame after frame
+    (`deliverSeq`); `frames_encode` — the cuts of `writeMessage`'s encoding of packets are the packets.
+    `tcp_after_error` — after an exception nothing more is ever handed over.
+    `tcp_malformed_frame_like_udp`, `pointer_cycle_in_tcp_stream` — a frame that does not decode (a
+    pointer cycle: `ValueError`) raises, after the messages before it were handed over, the class for
+    which `datagramReceived` drops the same bytes.
+  - UDP, `DNSDatagramProtocol.datagramReceived`: `datagram_decode_total`, `datagram_never_unexpected` —
+    `message_decode_total` at that entry point: truncated / invalid / handed over, never the
+    `except BaseException` ("Unexpected decoding error") clause, never an exception out of the method.
+  Outside the model: what `controller.messageReceived` and the callbacks of a pending query's `Deferred`
+  do (the protocols catch and log what the latter raise).
+
+Level: theorems about the model; that the model's outcome classes, hand-over order and attribute values
+are Python's is what the tie (`harness/corr/C33.py`: mutated encodings of every record type, pointer
+cycles, bogus RDLENGTHs, random bytes through the real `Message.fromStr`; TCP streams in every
+segmentation when short, bytewise / all two-cut / random segmentations when long through a real
+`DNSProtocol`; datagrams through a real `DNSDatagramProtocol` with `liveMessages`/`resends` set)
+checks on every run.
 -/
 namespace TwistedProps.C33
 open Twisted.Py Twisted.Dns.Wire
@@ -420,5 +445,280 @@ theorem edns_decode_total (M : Bytes) :
     rcases key e h with rfl | rfl
     · exact Or.inr (Or.inl rfl)
     · exact Or.inr (Or.inr rfl)
+
+/-! ## the two entry points: `DNSProtocol.dataReceived` and `DNSDatagramProtocol.datagramReceived` -/
+open Twisted.Dns.Proto
+
+theorem decodeMsg_error {M : Bytes} {e : Err} (h : decodeMsg M = .error e) : e = .eof ∨ e = .value := by
+  rcases message_decode_total M with ⟨m, hm⟩ | hm | hm <;> rw [hm] at h <;> cases h
+  · exact Or.inl rfl
+  · exact Or.inr rfl
+
+/-- the attributes an exception out of `dataReceived` leaves behind: `length` is set and the frame that
+    does not decode is still at the head of `buffer` -/
+def Stuck (s : Tcp) (e : Err) : Prop :=
+  ∃ L, s.length = some L ∧ L ≤ s.buffer.length ∧ decodeMsg (s.buffer.take L) = .error e
+
+theorem chunkStep_raise {length : Option Nat} {buffer : Bytes} {live : List Nat} {l : Option Nat} {b : Bytes} {e : Err}
+    (h : chunkStep length buffer live = .raise l b e) : (e = .eof ∨ e = .value) ∧ Stuck ⟨l, b, live⟩ e := by
+  unfold chunkStep at h
+  split at h
+  · rename_i L
+    split at h
+    · rename_i hL
+      split at h
+      · rename_i e' he
+        cases h
+        exact ⟨decodeMsg_error he, L, rfl, hL, he⟩
+      · cases h
+    · cases h
+  · cases h
+
+/-- the only exceptions that leave one pass of the loop are the decoder's `EOFError`/`ValueError`:
+    `struct.unpack("!H", …)` is applied to exactly two bytes -/
+theorem tcpStep_raise {length : Option Nat} {buffer : Bytes} {live : List Nat} {l : Option Nat} {b : Bytes} {e : Err}
+    (h : tcpStep length buffer live = .raise l b e) : (e = .eof ∨ e = .value) ∧ Stuck ⟨l, b, live⟩ e := by
+  unfold tcpStep at h
+  split at h
+  · split at h
+    · rename_i h2
+      rw [unpackBE_take2 h2] at h
+      exact chunkStep_raise h
+    · exact chunkStep_raise h
+  · exact chunkStep_raise h
+
+theorem tcpLoop_raised (length : Option Nat) (buffer : Bytes) (live : List Nat) (e : Err)
+    (h : (tcpLoop length buffer live).raised = some e) :
+    (e = .eof ∨ e = .value) ∧ Stuck (tcpLoop length buffer live).state e := by
+  fun_induction tcpLoop length buffer live with
+  | case1 length live => cases h
+  | case2 length buffer live hne l b hs => cases h
+  | case3 length buffer live hne l b e' hs =>
+    cases h
+    exact tcpStep_raise hs
+  | case4 length buffer live hne d b' live' hs r ih => exact ih h
+
+/-- **C33 at the TCP entry point.**  For every state of a `DNSProtocol` (any `length`, `buffer`,
+    `liveMessages`) and every segment, `dataReceived` terminates (`tcpLoop` is a total function: each
+    pass of `while self.buffer:` that does not leave the loop consumes a length prefix or a frame)
+    and either returns or raises `EOFError`/`ValueError` — what `Message.fromStr` raised on a frame. -/
+theorem tcp_dataReceived_total (s : Tcp) (data : Bytes) :
+    (s.dataReceived data).raised = none ∨ (s.dataReceived data).raised = some .eof ∨
+      (s.dataReceived data).raised = some .value := by
+  cases h : (s.dataReceived data).raised with
+  | none => exact Or.inl rfl
+  | some e =>
+    rcases (tcpLoop_raised _ _ _ e h).1 with rfl | rfl
+    · exact Or.inr (Or.inl rfl)
+    · exact Or.inr (Or.inr rfl)
+
+/-- … and for every sequence of segments -/
+theorem tcp_feed_total (cs : List Bytes) : ∀ s : Tcp,
+    (s.feed cs).raised = none ∨ (s.feed cs).raised = some .eof ∨ (s.feed cs).raised = some .value := by
+  induction cs with
+  | nil => intro s; exact Or.inl rfl
+  | cons c cs ih =>
+    intro s
+    simp only [Tcp.feed]
+    split
+    · exact tcp_dataReceived_total s c
+    · exact ih _
+
+/-- once a frame has failed to decode the connection is stuck on it: whatever arrives later, nothing
+    more is handed over and the same exception is raised again (the reactor has dropped the connection
+    anyway) -/
+theorem stuck_dataReceived (s : Tcp) (e : Err) (h : Stuck s e) (data : Bytes) :
+    s.dataReceived data =
+      ⟨⟨s.length, s.buffer ++ data, s.live⟩, [], if s.buffer ++ data = [] then none else some e⟩ := by
+  obtain ⟨L, hl, hL, hd⟩ := h
+  unfold Tcp.dataReceived
+  by_cases hb : s.buffer ++ data = []
+  · rw [hb, tcpLoop_nil, if_pos rfl]
+  · rw [tcpLoop, if_neg hb, if_neg hb]
+    have hs : tcpStep s.length (s.buffer ++ data) s.live = .raise s.length (s.buffer ++ data) e := by
+      rw [hl]
+      simp only [tcpStep, chunkStep, List.length_append]
+      rw [if_pos (by omega), List.take_append_of_le_length hL, hd]
+    split <;> rename_i hh <;> rw [hs] at hh <;> cases hh
+    rfl
+
+theorem tcp_after_error (s : Tcp) (data : Bytes) (e : Err) (h : (s.dataReceived data).raised = some e) (data' : Bytes) :
+    ((s.dataReceived data).state.dataReceived data').delivered = [] ∧
+    (((s.dataReceived data).state.dataReceived data').raised = none ∨
+     ((s.dataReceived data).state.dataReceived data').raised = some e) := by
+  have hst : Stuck (s.dataReceived data).state e := (tcpLoop_raised _ _ _ e h).2
+  rw [stuck_dataReceived _ e hst]
+  refine ⟨rfl, ?_⟩
+  simp only
+  split
+  · exact Or.inl rfl
+  · exact Or.inr rfl
+
+theorem init_eq_stateOf (live : List Nat) : Tcp.init live = stateOf [] live := by
+  simp [Tcp.init, stateOf]
+
+theorem noFrame_nil : ¬ HasFrame ([] : Bytes) := fun h => absurd h.1 (by simp)
+
+/-- **Segmentation invariance.**  For every byte stream and every way of cutting it into segments
+    (empty and 1-byte segments included), what a fresh `DNSProtocol` hands over — to the controller
+    or to the pending queries in `liveMessages`, in order — and what it raises is what one gets by
+    cutting the stream at the 2-byte length prefixes and decoding frame after frame up to the first
+    one that does not decode; without an exception the protocol is left holding exactly the
+    incomplete tail of the stream. -/
+theorem tcp_segmentation_invariance (live : List Nat) (chunks : List Bytes) :
+    ((Tcp.init live).feed chunks).delivered = (deliverSeq live (frames chunks.flatten)).1 ∧
+    ((Tcp.init live).feed chunks).raised = (deliverSeq live (frames chunks.flatten)).2.1 ∧
+    (((Tcp.init live).feed chunks).raised = none →
+      ((Tcp.init live).feed chunks).state =
+        stateOf (rest chunks.flatten) (deliverSeq live (frames chunks.flatten)).2.2) := by
+  have h := feed_same_spec chunks [] live noFrame_nil
+  rw [← init_eq_stateOf, List.nil_append] at h
+  have hs := spec_eq_deliverSeq chunks.flatten live
+  refine ⟨by rw [h.1, hs.1], by rw [h.2.1, hs.2.1], fun hn => ?_⟩
+  rw [h.2.2 hn, ← hs.2.2]
+  exact spec_state _ _ (by rw [← h.2.1]; exact hn)
+
+/-- two segmentations of the same stream cannot be told apart -/
+theorem tcp_segmentation_independent (live : List Nat) (c₁ c₂ : List Bytes) (h : c₁.flatten = c₂.flatten) :
+    Same ((Tcp.init live).feed c₁) ((Tcp.init live).feed c₂) := by
+  have h1 := feed_same_spec c₁ [] live noFrame_nil
+  have h2 := feed_same_spec c₂ [] live noFrame_nil
+  rw [h] at h1
+  rw [← init_eq_stateOf] at h1 h2
+  exact ⟨by rw [h1.1, h2.1], by rw [h1.2.1, h2.2.1], fun hn => by
+    rw [h1.2.2 hn, h2.2.2 (by rw [h2.2.1, ← h1.2.1]; exact hn)]⟩
+
+theorem deliverSeq_bad (fs : List Bytes) (P : Bytes) (fs' : List Bytes) (e : Err)
+    (hok : ∀ f ∈ fs, ∃ m, decodeMsg f = .ok m) (hbad : decodeMsg P = .error e) : ∀ live,
+    (deliverSeq live (fs ++ P :: fs')).2.1 = some e ∧ (deliverSeq live (fs ++ P :: fs')).1.length = fs.length := by
+  induction fs with
+  | nil => intro live; simp only [List.nil_append, deliverSeq, hbad]; exact ⟨trivial, rfl⟩
+  | cons f fs ih =>
+    intro live
+    obtain ⟨m, hm⟩ := hok f (by simp)
+    have := ih (fun x hx => hok x (by simp [hx])) (deliver m live).2
+    simp only [List.cons_append, deliverSeq, hm, List.length_cons]
+    exact ⟨this.1, by rw [this.2]⟩
+
+/-- `DNSDatagramProtocol.datagramReceived` on a packet that does not decode -/
+theorem datagram_of_error {P : Bytes} {e : Err} (h : decodeMsg P = .error e) (live resends : List Nat) :
+    (e = .eof ∧ datagramReceived live resends P = .truncated) ∨
+    (e = .value ∧ datagramReceived live resends P = .invalid) := by
+  rcases decodeMsg_error h with rfl | rfl
+  · exact Or.inl ⟨rfl, by simp only [datagramReceived, h]⟩
+  · exact Or.inr ⟨rfl, by simp only [datagramReceived, h]⟩
+
+/-- **A malformed message inside a TCP stream is reported like over UDP.**  Whatever the segmentation,
+    if the stream cuts into frames `fs`, then `P`, then `fs'`, the frames `fs` decode and `P` does not,
+    the messages of `fs` are handed over and then `dataReceived` raises exactly the exception class
+    that makes `datagramReceived` drop the datagram `P` (EOFError: "Truncated packet", ValueError:
+    "Invalid packet" — a compression-pointer cycle is the latter). -/
+theorem tcp_malformed_frame_like_udp (live resends : List Nat) (chunks : List Bytes) (fs : List Bytes) (P : Bytes)
+    (fs' : List Bytes) (e : Err) (hcut : frames chunks.flatten = fs ++ P :: fs')
+    (hok : ∀ f ∈ fs, ∃ m, decodeMsg f = .ok m) (hbad : decodeMsg P = .error e) :
+    ((Tcp.init live).feed chunks).raised = some e ∧ ((Tcp.init live).feed chunks).delivered.length = fs.length ∧
+    ((e = .eof ∧ datagramReceived live resends P = .truncated) ∨
+     (e = .value ∧ datagramReceived live resends P = .invalid)) := by
+  have h := tcp_segmentation_invariance live chunks
+  have hb := deliverSeq_bad fs P fs' e hok hbad live
+  rw [hcut] at h
+  exact ⟨by rw [h.2.1, hb.1], by rw [h.1, hb.2], datagram_of_error hbad live resends⟩
+
+/-- **C33 at the UDP entry point.**  `datagramReceived` never reaches its
+    `except BaseException: log.err(…, "Unexpected decoding error")` clause and no exception of the decoder
+    leaves it: the datagram is dropped as truncated (`EOFError`) or invalid (`ValueError`), or it decodes
+    and the message goes to the pending query, is ignored as a duplicate (`resends`), or goes to the
+    controller. -/
+theorem datagram_decode_total (live resends : List Nat) (data : Bytes) :
+    (decodeMsg data = .error .eof ∧ datagramReceived live resends data = .truncated) ∨
+    (decodeMsg data = .error .value ∧ datagramReceived live resends data = .invalid) ∨
+    ∃ m, decodeMsg data = .ok m ∧
+      (datagramReceived live resends data = .query m ∨ datagramReceived live resends data = .resend m ∨
+       datagramReceived live resends data = .controller m) := by
+  rcases message_decode_total data with ⟨m, hm⟩ | hm | hm
+  · refine Or.inr (Or.inr ⟨m, hm, ?_⟩)
+    simp only [datagramReceived, hm]
+    split
+    · exact Or.inl rfl
+    · split
+      · exact Or.inr (Or.inl rfl)
+      · exact Or.inr (Or.inr rfl)
+  · exact Or.inl ⟨hm, by simp only [datagramReceived, hm]⟩
+  · exact Or.inr (Or.inl ⟨hm, by simp only [datagramReceived, hm]⟩)
+
+theorem datagram_never_unexpected (live resends : List Nat) (data : Bytes) (e : Err) :
+    datagramReceived live resends data ≠ .unexpected e := by
+  rcases datagram_decode_total live resends data with h | h | ⟨m, _, h | h | h⟩ <;> (try rw [h.2]) <;> (try rw [h]) <;> intro hc <;> cases hc
+
+theorem cyclePacket_decode : decodeMsg cyclePacket = .error .value := by
+  have hn : decodeName cyclePacket 12 = .error .value :=
+    pointer_cycle_raises_ValueError cyclePacket 12 (by decide) (by decide) (by decide) (by decide)
+  have hr : readPrecisely cyclePacket 0 headerSize = .ok (cyclePacket.take 12, 12) := by rfl
+  unfold decodeMsg
+  rw [hr]
+  have hq : decodeQueries 1 cyclePacket 12 = .error .value := by
+    simp only [decodeQueries, decodeQuery, hn]
+  have hl : ((cyclePacket.take 12).length ≠ headerSize) = False := by decide
+  have h1 : beToNat (slice (cyclePacket.take 12) 4 2) = 1 := by rfl
+  simp only [hl, if_false, h1, hq]
+
+theorem zeros12_decodes : ∃ m, decodeMsg (List.replicate 12 0) = .ok m := by
+  have h : (match decodeMsg (List.replicate 12 0) with | .ok _ => true | _ => false) = true := by decide
+  cases hd : decodeMsg (List.replicate 12 0) with
+  | ok m => exact ⟨m, rfl⟩
+  | error e => rw [hd] at h; cases h
+
+/-- The 18-byte pointer-cycle packet between two good messages of a TCP stream, cut into segments in any
+    way whatever: the first message is handed over, then `dataReceived` raises `ValueError` — the class
+    for which `datagramReceived` logs "Invalid packet" and drops the same bytes arriving over UDP. -/
+theorem pointer_cycle_in_tcp_stream (live resends : List Nat) (chunks : List Bytes) (tail : Bytes) (ht : ¬ HasFrame tail)
+    (h : chunks.flatten = encodeFrames [List.replicate 12 0, cyclePacket, List.replicate 12 0] ++ tail) :
+    ((Tcp.init live).feed chunks).raised = some .value ∧ ((Tcp.init live).feed chunks).delivered.length = 1 ∧
+    datagramReceived live resends cyclePacket = .invalid := by
+  have hcut : frames chunks.flatten = [List.replicate 12 0] ++ cyclePacket :: [List.replicate 12 0] := by
+    rw [h]
+    exact (frames_encode _ (by intro f hf; simp at hf; rcases hf with rfl | rfl | rfl <;> decide) tail ht).1
+  have := tcp_malformed_frame_like_udp live resends chunks _ _ _ _ hcut
+    (by intro f hf; simp at hf; subst hf; exact zeros12_decodes) cyclePacket_decode
+  refine ⟨this.1, this.2.1, ?_⟩
+  rcases this.2.2 with ⟨h1, _⟩ | ⟨_, h2⟩
+  · cases h1
+  · exact h2
+
+/-- non-vacuity: the stream of `pointer_cycle_in_tcp_stream` delivered byte by byte (54 one-byte
+    segments — the case that used to raise `TypeError` before the repair), and in one piece with a
+    dangling byte after it -/
+example : ((Tcp.init []).feed ((encodeFrames [List.replicate 12 0, cyclePacket, List.replicate 12 0]).map fun b => [b])).raised
+    = some .value :=
+  (pointer_cycle_in_tcp_stream [] [] _ [] noFrame_nil (by decide)).1
+example : ((Tcp.init [1]).feed [encodeFrames [List.replicate 12 0, cyclePacket, List.replicate 12 0] ++ [7]]).delivered.length = 1 :=
+  (pointer_cycle_in_tcp_stream [1] [] _ [7] (fun h => absurd h.1 (by decide)) (by decide)).2.1
+
+/-- non-vacuity of `tcp_segmentation_invariance`: two good frames and half of a third, in 1-byte
+    segments: two messages handed over, nothing raised, the protocol holds the 5 bytes of the tail -/
+example : let cs := (encodeFrames [List.replicate 12 0, List.replicate 12 0] ++ [0, 12, 1, 2, 3]).map fun b => [b]
+    ((Tcp.init []).feed cs).raised = none ∧ ((Tcp.init []).feed cs).delivered.length = 2 ∧
+    ((Tcp.init []).feed cs).state = ⟨some 12, [1, 2, 3], []⟩ := by
+  intro cs
+  have hfl : cs.flatten = encodeFrames [List.replicate 12 0, List.replicate 12 0] ++ [0, 12, 1, 2, 3] := by decide
+  have hfr := frames_encode [List.replicate 12 0, List.replicate 12 0] (by intro f hf; simp at hf; subst hf; decide)
+    [0, 12, 1, 2, 3] (fun h => absurd h.2 (by decide))
+  have hinv := tcp_segmentation_invariance [] cs
+  rw [hfl, hfr.1, hfr.2] at hinv
+  obtain ⟨m, hm⟩ := zeros12_decodes
+  have hr : ((Tcp.init []).feed cs).raised = none := by rw [hinv.2.1]; simp only [deliverSeq, hm]
+  refine ⟨hr, by rw [hinv.1]; simp only [deliverSeq, hm, List.length_cons, List.length_nil], ?_⟩
+  rw [hinv.2.2 hr]
+  have hl : (deliverSeq [] [List.replicate 12 0, List.replicate 12 0]).2.2 = [] := by
+    simp only [deliverSeq, hm, deliver, List.contains_nil]; rfl
+  rw [hl]
+  simp [stateOf, be16, beToNat]
+
+/-- non-vacuity of `datagram_decode_total`: all outcomes occur -/
+example : datagramReceived [] [] [] = .truncated := by rfl
+example : datagramReceived [] [] cyclePacket = .invalid := by simp only [datagramReceived, cyclePacket_decode]
+example : (match datagramReceived [0] [] (List.replicate 12 0) with | .query _ => true | _ => false) = true := by decide
+example : (match datagramReceived [] [0] (List.replicate 12 0) with | .resend _ => true | _ => false) = true := by decide
+example : (match datagramReceived [] [] (List.replicate 12 0) with | .controller _ => true | _ => false) = true := by decide
 
 end TwistedProps.C33
